@@ -1030,9 +1030,14 @@ class FlowDomain(Domain):
         if callee not in self._setc:
             res = None
             b = self.f.body(callee)
-            if b is not None and not b.is_coroutine and len(b.blocks) <= 4:
+            # a setter may also log the transition (`swap` returns the old value for the trace line): it stays a setter as
+            # long as its only call into the crate-visible state is the one store / swap of its parameter
+            plain = b is not None and not b.is_coroutine and len(b.blocks) <= 60 and \
+                sum(1 for _bi, t in b.calls() if t.get('fn', '').endswith(('Atomic::<bool>::store', 'Atomic::<bool>::swap'))) == 1 and \
+                not any(self.f.body(t.get('fn') or '') is not None for _bi, t in b.calls())
+            if plain:
                 for bi, t in b.calls():
-                    if t.get('fn', '').endswith('Atomic::<bool>::store'):
+                    if t.get('fn', '').endswith(('Atomic::<bool>::store', 'Atomic::<bool>::swap')):
                         fld = self._stored_field(b, t)
                         v = t['args'][1]
                         if fld and v['k'] in ('copy', 'move'):
@@ -1196,7 +1201,7 @@ class FlowDomain(Domain):
             if vec is not None:
                 tok = frozenset(('F', 'HOLDS', x[2], vec) if (len(x) > 3 and x[0] == 'F' and x[1] == 'HOLDS' and x[3] == g) else x
                                 for x in tok)
-        if fn is not None and fn.endswith('Atomic::<bool>::store') and len(term['args']) > 1:
+        if fn is not None and fn.endswith(('Atomic::<bool>::store', 'Atomic::<bool>::swap')) and len(term['args']) > 1:
             fld = self._stored_field(fr.body, term)
             if fld in ('need_flush', 'dirty'):
                 val = tag_of_operand(term['args'][1], tags)
